@@ -3948,9 +3948,18 @@ impl Compiler {
 
         let stack_count = self.stack_count();
 
-        let match_register = self
-            .compile_node(match_expression, ctx.with_any_register())?
-            .unwrap(self)?;
+        let match_result = self.compile_node(match_expression, ctx.with_any_register())?;
+        let match_register = if match_result.is_temporary {
+            match_result.unwrap(self)?
+        } else {
+            // The value being matched is in a local variable's register.
+            // The variable could be reassigned by a pattern while the value is still being matched
+            // against (e.g. `match x` with the pattern `(x, y)`), so a copy is matched against.
+            let local_register = match_result.unwrap(self)?;
+            let copy_register = self.push_register()?;
+            self.push_op(Op::Copy, &[copy_register, local_register]);
+            copy_register
+        };
         let match_len = match ctx.node(match_expression) {
             Node::TempTuple(expressions) => expressions.len(),
             _ => 1,
